@@ -484,6 +484,16 @@ def r3_import_failure_path(ctx):
     logic = ctx.repo.mod("model.logic")
     fn = logic.func("load_model_from_file")
     ctx.analysed(fn)
+    if not any(isinstance(n, ast.Try) for n in walk_no_nested(fn, False)):
+        # the import proper sits in a private worker: judge it there
+        for c in calls_in(fn):
+            if isinstance(c.func, ast.Name) and c.func.id.startswith("_") \
+                    and c.func.id in logic.funcs and any(
+                        isinstance(n, ast.Try) for n in walk_no_nested(
+                            logic.funcs[c.func.id], False)):
+                fn = logic.funcs[c.func.id]
+                ctx.analysed(fn)
+                break
     cfg = CFG(fn)
     # (a) definite assignment on every path, incl. through finally
     pu = possibly_unbound(cfg)
@@ -885,7 +895,8 @@ def r6_ancillary_keys_agree(ctx):
     fn = core.func("NaniteFitModel.compute_ancillaries")
     ctx.analysed(fn)
     rets = [r for r in walk_no_nested(fn, False) if isinstance(r, ast.Return)]
-    if len(rets) != 1 or not isinstance(rets[0].value, ast.Name):
+    if not rets or not all(isinstance(r.value, ast.Name) for r in rets) or \
+            len({r.value.id for r in rets}) != 1:
         raise Undecided("compute_ancillaries does not return a named dict")
     D = rets[0].value.id
     n = 0
